@@ -5,7 +5,11 @@
 (*             other spellings of their path; /dev/null; command lines that   *)
 (*             are empty, blank, or start with blanks in all three forms;     *)
 (*             operands that are a directory, a missing file, the empty       *)
-(*             string, an assignment), every pair of actions of the older     *)
+(*             string, an assignment; a file name in a directory that does    *)
+(*             not exist, written with > and >> by print and printf, read by  *)
+(*             getline and as an operand, spelled absolute / computed /       *)
+(*             relative / relative to the root of a name-mapping open-file    *)
+(*             function), every pair of actions of the older                  *)
 (*             menu, the pairs of an older action and one of NewPair (a       *)
 (*             representative of each newer dimension) in both orders, every  *)
 (*             operand after an operand that is not a file, and every triple  *)
@@ -19,19 +23,22 @@
 (*  "delivery" (C13) every history of at most Depth actions, flags off,       *)
 (*             ending normally, by exit, or by a run-time error;              *)
 (*  "failure"  (C13) histories that write to standard output (print, printf,  *)
-(*             print with two arguments), in default, CSV and TSV output mode,*)
+(*             print with two arguments, and the implied print of a rule that *)
+(*             has a pattern and no action), in default, CSV and TSV mode,    *)
 (*             with the writer failing at every byte offset (and never: the   *)
 (*             control in which everything must arrive), the writer being     *)
 (*             plain or a buffered writer of 3, 16 or 4096 bytes;             *)
 (*  "newline"  (C13) the newline output modes raw, crlf and smart x print and *)
 (*             printf of every payload shape (plain; ending with a newline;   *)
-(*             an interior newline with and without a final one; CR LF inside)*)
+(*             an interior newline with and without a final one; CR LF inside;*)
+(*             one string as large as a stream buffer, "block")               *)
 (*             to standard output, "-", /dev/stdout, /dev/stderr, a file (>   *)
 (*             and >>), `cat` and "  cat": every single action with every     *)
 (*             ending, and (Depth >= 2) every pair of such actions on ONE     *)
 (*             destination, or one followed by close / fflush (Rich < 2:      *)
 (*             pairs in raw and crlf mode only, the second payload one of     *)
-(*             plain / mid / crlf).                                           *)
+(*             plain / mid / crlf / block; a block is paired with plain and   *)
+(*             block payloads only).                                          *)
 (* One JSON line per finished run: configuration, actions, Prediction(st);    *)
 (* for a session: fam = "session", runs = one such record per Execute.        *)
 EXTENDS IOStreams, Json
@@ -65,8 +72,12 @@ NewSingles == {a \in Menu(GFiles \cup NullFiles, {"lit", "computed"} \cup PathCl
 \* one representative of each newer dimension (used in pairs with the older menu, and in the later runs of sessions)
 NewPair == { Pr("file", "/dev/null", "trunc", "print", "lit"), Act("getline_file", "/dev/null", "lit"), Act("getline_file", "f1", "devdd"),
              Pr("file", "f2", "append", "print", "devdd"), Act("system", "blank", "lit"), Act("operand", "d1", "lit"), Act("operand", "", "lit") }
+           \cup (IF Rich = 2 THEN {Pr("file", "nd/g1", "trunc", "print", "lit")} ELSE {})
 \* the newline family: shaped print / printf to every kind of destination
-NewlineMenu == {a \in ShapedPrints({"f1"}, Shapes) : ~(a.dest = "file" /\ a.name \in StdNames /\ a.mode = "append") /\ a.name # "cat3"}
+NewlineMenu == {a \in ShapedPrints({"f1"}, Shapes) : ~(a.dest = "file" /\ a.name \in StdNames /\ a.mode = "append") /\ a.name # "cat3"
+                                                     /\ ~(ShapeOf(a) = "block" /\ a.name \in LeadCmds)}
+\* a block is paired with plain payloads and blocks only
+BlockOK(a, b) == "block" \in {ShapeOf(a), ShapeOf(b)} => {ShapeOf(a), ShapeOf(b)} \subseteq {"plain", "block"}
 SameDest(a, b) == a.dest = b.dest /\ a.name = b.name
 \* Rich = 0: the core actions (used for the deepest histories), 1: the standard menu, 2: + printf forms, cat3 readers
 CoreMenu ==
@@ -91,7 +102,7 @@ StdMenu ==
                           Act("fflush", "exit3", "lit"), Pr("stdout", "", "none", "print2", "lit")} ELSE {})
 DeliveryMenu == IF Rich = 0 THEN CoreMenu ELSE StdMenu
 FailureMenu ==
-       {Pr("stdout", "", "none", f, "lit") : f \in {"print", "printf", "print2"}}
+       {Pr("stdout", "", "none", f, "lit") : f \in {"print", "printf", "print2", "implied"}}
   \cup {Pr("file", n, "trunc", "print", "lit") : n \in {"-", "/dev/stdout", "f2"}}
   \cup {Act("fflush", "", "lit"), Act("close", "f2", "lit")}
 
@@ -150,7 +161,7 @@ Choices ==
   ELSE IF Family = "newline"
   THEN (IF Len(h) = 0 THEN NewlineMenu
         ELSE IF Len(h) = 1 /\ (Rich = 2 \/ cfg.nlmode # "smart")
-        THEN {a \in NewlineMenu : SameDest(a, h[1]) /\ (Rich = 2 \/ ShapeOf(a) \in {"plain", "mid", "crlf"})}
+        THEN {a \in NewlineMenu : SameDest(a, h[1]) /\ BlockOK(a, h[1]) /\ (Rich = 2 \/ ShapeOf(a) \in {"plain", "mid", "crlf", "block"})}
              \cup (IF h[1].name \in SNames THEN {Act("close", h[1].name, "lit"), Act("fflush", h[1].name, "lit")} ELSE {})
         ELSE IF Len(h) >= 2 /\ Rich = 2 THEN {a \in NewlineMenu : SameDest(a, h[1]) /\ ShapeOf(a) \in {"mid", "crlf"}}
         ELSE {})
